@@ -245,6 +245,22 @@ func step(w []string, line string) string {
 			}
 			return fmt.Sprintf("ok t=%d used=%d", m.Type(), len(data)-r.Len())
 		})
+	case "pubenc":
+		// pubenc <topic length> <payload length> <qos>: the PUBLISH encoder on packets whose size clients and
+		// peers choose (presence notifications carry the CONNECT username, forwarded messages any payload);
+		// several callers run on goroutines without a recover, so an oversize body must be an error, not a panic
+		tl, _ := strconv.Atoi(w[1])
+		pl, _ := strconv.Atoi(w[2])
+		q, _ := strconv.Atoi(w[3])
+		return vlib.Guard(func() string {
+			p := &mqtt.Publish{Header: mqtt.Header{QOS: uint8(q)}, Topic: bytes.Repeat([]byte{'t'}, tl), MessageID: 7, Payload: bytes.Repeat([]byte{'p'}, pl)}
+			var buf bytes.Buffer
+			n, err := p.EncodeTo(&buf)
+			if err != nil {
+				return "err"
+			}
+			return fmt.Sprintf("ok n=%d", n)
+		})
 	case "chan":
 		// the topic of every SUBSCRIBE / UNSUBSCRIBE / PUBLISH / last will and of every request goes
 		// through ParseChannel before its key is looked at: it must terminate, with options bounded by the text
